@@ -3,7 +3,7 @@
 FEET_TO_METERS = 0.3048
 """Unit conversion factor for feet to meters."""
 
-METERS_TO_FEET = 3.28084
+METERS_TO_FEET = 1 / FEET_TO_METERS
 """Unit conversion factor for meters to feet."""
 
 METERS_TO_FL = METERS_TO_FEET / 100
